@@ -141,6 +141,8 @@ def make_hooks(idx, spec):
     if spec["testTearDown"]:
         def testTearDown(*a):
             trace({"ev": "ttd", "l": idx, "cap": captured()})
+            if spec.get("testTearDownRaises"):
+                raise LayerError("testTearDown of layer %d fails" % idx)
         hooks["testTearDown"] = testTearDown
     return hooks
 
